@@ -335,6 +335,49 @@ theorem batchedF_spec {α : Type} (n : Nat) (hn : 0 < n) : ∀ (f : Nat) (xs : L
       · simp [List.length_take]; omega
       · exact h2 b hb
 
+theorem batchedF_nil_iff {α : Type} (n : Nat) (hn : 0 < n) : ∀ (f : Nat) (xs : List α), xs.length ≤ f →
+    (batchedF n f xs = [] ↔ xs = []) := by
+  intro f xs h
+  cases f with
+  | zero =>
+    have : xs = [] := List.eq_nil_of_length_eq_zero (by omega)
+    simp [this, batchedF]
+  | succ f =>
+    cases xs with
+    | nil => simp [batchedF]
+    | cons x xs => simp [batchedF]
+
+/-- every batch but the last is full -/
+theorem batchedF_full {α : Type} (n : Nat) (hn : 0 < n) : ∀ (f : Nat) (xs : List α), xs.length ≤ f →
+    ∀ b ∈ (batchedF n f xs).dropLast, b.length = n := by
+  intro f
+  induction f with
+  | zero => intro xs _ b hb; simp [batchedF] at hb
+  | succ f ih =>
+    intro xs h b hb
+    cases xs with
+    | nil => simp [batchedF] at hb
+    | cons x xs =>
+      have hl : ((x :: xs).drop n).length ≤ f := by simp at h ⊢; omega
+      simp only [batchedF, List.isEmpty_cons, Bool.false_eq_true, if_false] at hb
+      cases hr : batchedF n f ((x :: xs).drop n) with
+      | nil => rw [hr] at hb; simp at hb
+      | cons r rs =>
+        rw [hr] at hb
+        simp only [List.dropLast_cons₂, List.mem_cons] at hb
+        rcases hb with rfl | hb
+        · have hne : (x :: xs).drop n ≠ [] := by
+            intro e
+            have := (batchedF_nil_iff n hn f _ hl).mpr e
+            rw [hr] at this; cases this
+          have : n < (x :: xs).length := by
+            by_cases hlt : n < (x :: xs).length
+            · exact hlt
+            · exact absurd (List.drop_eq_nil_of_le (by omega)) hne
+          simp [List.length_take]; omega
+        · have := ih _ hl b (by rw [hr]; exact hb)
+          exact this
+
 /-! ## slices and widths -/
 
 theorem slice_at (p x r : Line) (a b : Nat) (ha : p.length = a) (hb : a + x.length = b) :
